@@ -444,3 +444,49 @@ def double_cover_layout(ctx, repo, pid):
                 val.elem.p == -Poly.app("at2", "H", i, Poly.atom(val.dims[0][0][0]))
     ctx.check(okn, "LAYOUT", f"{pid}.doublecover.neg", "row N+i of the double cover is the exact negative of row i", fi.where,
               "full_hypersphere_grid[N + i] = inverse_q", witness=vstr(neg[1]) + " <- " + vstr(neg[2])[:120] if neg else "no store")
+
+
+def vertex_reindexing(ctx, repo, pid):
+    """REINDEX: get_reduced_vertices_regions removes EXACT duplicate vertices (np.unique) and maps every old vertex to its
+    representative by a coordinate lookup; that lookup inverts an exact de-duplication, so an explicit tolerance coarser than
+    numpy's default (1e-8) can map a vertex to a DIFFERENT nearby representative: two cells then seem to share one vertex less or
+    more, and a true neighbour pair is dropped / a false one added."""
+    from .polyrules import _tol_value
+    ci = repo.cls(VO, "AbstractVoronoi")
+    fi = ci.find_method("get_reduced_vertices_regions")
+    if fi is None:
+        raise AnalysisError("anchor vanished: AbstractVoronoi.get_reduced_vertices_regions")
+    ctx.analysed(fi)
+    calls = [n for n in ast.walk(fi.node) if isinstance(n, ast.Call) and isinstance(n.func, ast.Name) and
+             any(k in n.func.id for k in ("which_row", "row_is", "isclose", "allclose"))]
+    calls += [n for n in ast.walk(fi.node) if isinstance(n, ast.Call) and isinstance(n.func, ast.Attribute) and n.func.attr in ("isclose", "allclose")]
+    ctx.instance("FLOATTOL", max(1, len(calls)))
+    bad = []
+    unknown = []
+    for c in calls:
+        named = [(k.arg, k.value) for k in c.keywords]
+        # positional tolerance arguments of repository helpers (the call normal form makes leading keywords positional)
+        if isinstance(c.func, ast.Name):
+            r_ = repo.resolve_name(fi.module, c.func.id)
+            if r_ and r_[0] == "func":
+                ps = r_[1].params()
+                named += [(ps[i], a) for i, a in enumerate(c.args) if i < len(ps)]
+        for nm, val in named:
+            if nm in ("atol", "rtol", "tol", "abs_tol", "rel_tol"):
+                v = _tol_value(repo, fi.module, val)
+                k = ast.keyword(arg=nm, value=val)
+                if v is None:
+                    unknown.append((c, k))
+                elif v > 1e-7:
+                    bad.append((c, k, v))
+    if bad:
+        c, k, v = bad[0]
+        ctx.violate("FLOATTOL", f"{pid}.reindex.tolerance", "the lookup that maps every Voronoi vertex to its de-duplicated representative uses a "
+                    "tolerance far above rounding noise although the de-duplication is exact: distinct vertices closer than the tolerance "
+                    "are merged, and cells that share a very short edge lose (or gain) a common vertex — the adjacency criterion is applied "
+                    "to wrong vertex sets", fi.where, src(c)[:140], witness=f"{k.arg} = {v:g} (numpy default 1e-8)")
+    elif unknown:
+        ctx.inconclusive("FLOATTOL", f"{pid}.reindex.tolerance", "tolerance of the vertex lookup is not a compile-time constant", fi.where,
+                         witness=src(unknown[0][0])[:120])
+    else:
+        ctx.ok("FLOATTOL", f"{pid}.reindex.tolerance", "vertex representatives are looked up with the default (rounding-noise) tolerance", fi.where)
